@@ -200,6 +200,22 @@ def search_C05_C06(pid, budget):
             if got != exp:
                 fail(pid, "split", "%s=0 on faint (amplitude 3, about 9.5 dB) windows: regions %r, the windows at or above 0 dB give %r" % (
                     key, got, exp), pattern=pat)
+    # two split() generators with the same format and parameters, consumed alternately, do not disturb each other
+    import itertools as _it
+    n += 1
+    da, db = synth("aAAAAaaAAAaaaa", 10, 2, 1), synth("aaaAAAaAAAAAaa", 10, 2, 1)
+    kwi = dict(sr=1000, sw=2, ch=1, min_dur=0.02, max_dur=0.1, max_silence=0.01, analysis_window=0.01)
+    ea = [(round(r.start * 1000), bytes(r)) for r in split(da, **kwi)]
+    eb = [(round(r.start * 1000), bytes(r)) for r in split(db, **kwi)]
+    ga, gb = [], []
+    for ra, rb in _it.zip_longest(split(da, **kwi), split(db, **kwi)):
+        if ra is not None:
+            ga.append((round(ra.start * 1000), bytes(ra)))
+        if rb is not None:
+            gb.append((round(rb.start * 1000), bytes(rb)))
+    if ga != ea or gb != eb:
+        fail(pid, "split", "two split() generators consumed alternately: starts %r / %r, each input alone gives %r / %r" % (
+            [g[0] for g in ga], [g[0] for g in gb], [e[0] for e in ea], [e[0] for e in eb]))
     # a region that starts on the (shorter) last window, and splitting a region that has a start time of its own
     from auditok import AudioRegion as _AR
     n += 1
@@ -287,7 +303,7 @@ def search_C05_C06(pid, budget):
             os.remove(os.path.join(tmpd, f))
         os.rmdir(tmpd)
     for (sr, aw) in ((10, 0.1), (1000, 0.01), (100, 0.05), (10, 0.25), (22050, 0.05), (50, 0.02), (1, 1),
-                     (48000, 1024 / 48000), (48000, 256 / 48000), (3, 1 / 3)):
+                     (48000, 1024 / 48000), (48000, 256 / 48000), (3, 1 / 3), (100, 0.026), (11025, 0.03)):
         wdurs = [(10 * aw, 10 * aw, 0.0), (4 * aw, 9 * aw, 2 * aw), (3 * aw, 3 * aw, aw)] if aw not in (0.1, 0.01, 0.05, 0.25, 0.02, 1) else []
         for (mn, mx, ms) in durs + wdurs:
             if mn < aw / 2 and mx < aw:
@@ -321,8 +337,40 @@ def decode(data, sw, ch):
     return [list(vals[c::ch]) for c in range(ch)]
 
 
+def c07_buffers(pid):
+    """The same window handed over as bytes, bytearray, array('h') and a cast memoryview gives the same verdict;
+    very quiet windows are not floored to silence."""
+    import array
+    from auditok.util import AudioEnergyValidator
+    n = 0
+    quiet_then_loud = [3] * 12 + [20000, -20000] * 6
+    for vals_ in (quiet_then_loud, [0] * 20 + [30000] * 4):
+        raw = struct.pack("<%dh" % len(vals_), *vals_)
+        for thr in (50, 70, 20):
+            ref = bool(AudioEnergyValidator(thr, 2, 1).is_valid(raw))
+            for nm, buf in (("bytearray", bytearray(raw)), ("array('h')", array.array("h", vals_)),
+                            ("memoryview cast to 'h'", memoryview(raw).cast("h"))):
+                n += 1
+                try:
+                    got = bool(AudioEnergyValidator(thr, 2, 1).is_valid(buf))
+                except Exception as e:  # noqa
+                    fail(pid, "is_valid", "window given as %s raised %s" % (nm, type(e).__name__))
+                if got != ref:
+                    fail(pid, "is_valid", "the same %d samples judged %r as bytes and %r as %s (threshold %r)" % (len(vals_), ref, got, nm, thr))
+    # mean square below 1: energy is 10*log10(mean square), not the silence floor
+    for vals_, E in (([1, 1, 1, 0], 10 * math.log10(0.75)), ([1, 0, 0, 0, 0, 0, 0, 0], 10 * math.log10(0.125)), ([2, 1, 1, 1], 10 * math.log10(1.75))):
+        raw = struct.pack("<%dh" % len(vals_), *vals_)
+        for thr in (E - 0.5, E + 0.5, -100):
+            n += 1
+            got = bool(AudioEnergyValidator(thr, 2, 1).is_valid(raw))
+            if got != (E >= thr):
+                fail(pid, "is_valid", "samples %r (energy %.3f dB) judged %r at threshold %.3f" % (vals_, E, got, thr))
+    return n
+
+
 def search_C07(pid, budget):
     from auditok.util import AudioEnergyValidator
+    n0 = c07_buffers(pid)
     n = 0
     t0 = time.time()
     ext = {1: (-128, 127), 2: (-32768, 32767), 4: (-2 ** 31, 2 ** 31 - 1)}
@@ -421,6 +469,8 @@ def search_C09(pid, budget):
                                                     channels=ch, ch=ch + 1, analysis_window=aw, aw=aw * 3,
                                                     **{k: v for k, v in kw.items() if k != "analysis_window"}),
                 }
+                variants["short aliases written BEFORE the long names (long still wins)"] = lambda: regions_of(
+                    data, sr=sr + 7, sampling_rate=sr, sw=3 - sw if sw < 3 else 2, sample_width=sw, ch=ch + 1, channels=ch, **kw)
                 variants["AudioRegion next to contradicting long-name parameters"] = lambda: regions_of(
                     AudioRegion(data, sr, sw, ch), sampling_rate=sr * 2 + 1, sample_width=(2 if sw != 2 else 1), channels=ch + 1, **kw)
 
@@ -538,6 +588,21 @@ def search_C10_C19(pid, budget):
     n = 0
     t0 = time.time()
     fmts = ((10, 1, 1), (10, 2, 2), (8000, 2, 1), (11025, 2, 1), (8, 4, 3))
+    # the Recorder spelling honours max_read exactly like AudioReader(record=True)
+    from auditok.util import Recorder
+    dr = bytes((i * 5 + 3) % 256 for i in range(80))
+    for mr in (0.5, 1.0, 2.5):
+        for hd in (None, 0.2):
+            n += 1
+            rec_ = Recorder(dr, block_dur=0.4, hop_dur=hd, max_read=mr, sr=10, sw=2, ch=1)
+            rec_.open()
+            got, tail = read_all(rec_)
+            vis = dr[:round(mr * 10) * 2]
+            exp = expected_blocks(vis, 2, 4, 4 if hd is None else 2)
+            rec_.rewind()
+            if got != exp or rec_.data != vis[:len(rec_.data)] or len(rec_.data) > len(vis):
+                fail(pid, "reader", "Recorder(max_read=%r, hop_dur=%r): blocks of %r bytes, recorded %d bytes; the first round(max_read*rate) "
+                     "samples are %d bytes" % (mr, hd, [len(b) for b in got], len(rec_.data), len(vis)))
     # lazily read file and slow standard input under the reader: full blocks, then None on EVERY further call
     from auditok.io import StdinAudioSource
     tmpd = tempfile.mkdtemp(prefix="c10-")
@@ -724,6 +789,31 @@ def search_C11(pid, budget):
                                 fail(pid, "source", "position %r after consuming %d samples" % (src.position, pos),
                                      fmt=[sr, sw, ch], nsamples=ns, reads=list(seq))
                         src.close()
+                # position_ms is int(rate * ms / 1000) evaluated in that order
+                if ns == 10 and sw == 1 and ch == 1 and sr == 10:
+                    for r2, ms in ((16000, 1001), (8000, 1003), (44100, 350), (16000, -1001), (32000, 1017)):
+                        n += 1
+                        big = BufferAudioSource(bytes(2 * 3 * r2), r2, 2, 1)
+                        big.position_ms = ms
+                        exp_p = int(r2 * ms / 1000)
+                        exp_p = exp_p if exp_p >= 0 else 3 * r2 + exp_p
+                        if big.position != exp_p:
+                            fail(pid, "position", "position_ms = %d at %d Hz: position %d, expected int(rate*ms/1000) = %d" % (
+                                ms, r2, big.position, exp_p))
+                    # a wav source describes the file it is constructed on, also when the path was rewritten
+                    wp2 = os.path.join(tmp, "re.wav")
+                    for (r3, w3, c3) in ((8000, 2, 1), (16, 1, 3)):
+                        n += 1
+                        with wave.open(wp2, "wb") as f:
+                            f.setframerate(r3); f.setsampwidth(w3); f.setnchannels(c3); f.writeframes(bytes(w3 * c3 * 7))
+                        ws = WaveAudioSource(wp2)
+                        if (ws.sr, ws.sw, ws.ch) != (r3, w3, c3):
+                            fail(pid, "source", "WaveAudioSource on a rewritten path reports %r, the file is %r" % ((ws.sr, ws.sw, ws.ch), (r3, w3, c3)))
+                        ws.open()
+                        got7 = ws.read(7)
+                        ws.close()
+                        if got7 is None or len(got7) != 7 * w3 * c3:
+                            fail(pid, "source", "WaveAudioSource.read(7) on a %r file returned %r bytes" % ((r3, w3, c3), None if got7 is None else len(got7)))
                 # open() on an open, partly consumed source does not move it; a position set before open() is kept
                 if ns >= 4:
                     n += 1
@@ -806,6 +896,23 @@ def search_C18(pid, budget):
     t0 = time.time()
     tmp = tempfile.mkdtemp(prefix="c18-")
     try:
+        # a name without extension means raw, also when a directory of the path contains a dot
+        n += 1
+        dotted = os.path.join(tmp, "session.1")
+        os.mkdir(dotted)
+        try:
+            pth = os.path.join(dotted, "clip")
+            try:
+                AudioRegion(bytes(range(12)), 10, 2, 1).save(pth)
+                back = open(pth, "rb").read()
+            except Exception as e:  # noqa
+                back = "raised %s: %s" % (type(e).__name__, e)
+            if back != bytes(range(12)):
+                fail(pid, "save", "region.save('<dir with a dot>/clip') (no extension = raw): %r" % (back if isinstance(back, str) else len(back),))
+        finally:
+            for f in os.listdir(dotted):
+                os.remove(os.path.join(dotted, f))
+            os.rmdir(dotted)
         # saving over an existing, longer file replaces it
         for fmt in ("raw", "wav"):
             n += 1
